@@ -11,18 +11,22 @@ import dataflow
 
 
 class Prov:
-    def __init__(self, F, source=None, derive=None, max_depth=12):
+    def __init__(self, F, source=None, derive=None, max_depth=12, caller_filter=None, follow_returns=False):
         self.F = F
         self.source = source or (lambda b, r: None)
         self.derive = derive or (lambda callee, args, c: None)
         self.memo = {}
         self.stack = set()
         self.max_depth = max_depth
+        self.caller_filter = caller_filter
+        self.follow_returns = follow_returns
         self._callers = None
         self._closure_sites = None
 
     # ---- indices
     def callers(self):
+        if self._callers is None and getattr(self.F, '_prov_callers', None) is not None:
+            self._callers = self.F._prov_callers
         if self._callers is None:
             idx = {}
             for b in self.F.bodies.values():
@@ -35,10 +39,13 @@ class Prov:
                         for im in self.F.trait_impls()[c["f"]]:
                             idx.setdefault(im, []).append((b, bb, c))
             self._callers = idx
+            self.F._prov_callers = idx
         return self._callers
 
     def closure_sites(self):
         """closure body id -> (parent body, [operands])"""
+        if self._closure_sites is None and getattr(self.F, '_prov_closures', None) is not None:
+            self._closure_sites = self.F._prov_closures
         if self._closure_sites is None:
             idx = {}
             for b in self.F.bodies.values():
@@ -47,6 +54,7 @@ class Prov:
                         if st[0] == "a" and st[2][0] == "agg" and st[2][1] in ("closure", "coroutine", "coroutine_closure"):
                             idx.setdefault(st[2][2], []).append((b, st[2][4]))
             self._closure_sites = idx
+            self.F._prov_closures = idx
         return self._closure_sites
 
     # ---- api
@@ -111,6 +119,8 @@ class Prov:
                 d = self.derive(callee, arg_sets, c)
                 if d is not None:
                     out |= set(d)
+                elif self.follow_returns and callee in self.F.bodies:
+                    out |= self.labels(self.F.bodies[callee], 0, depth + 1)
                 else:
                     for a in arg_sets:
                         out |= a
@@ -154,6 +164,8 @@ class Prov:
         if not sites:
             out.add(("ENTRY_ARG", "%s#%d" % (b.id, n)))
         for cb, bb, c in sites:
+            if self.caller_filter is not None and cb.id not in self.caller_filter:
+                continue
             if n - 1 < len(c["a"]):
                 out |= self.operand_labels(cb, c["a"][n - 1], depth + 1)
         return out
